@@ -52,7 +52,8 @@ def run_C01(tier, seed):
     return simple("C01", tier, seed, "exploration",
                   "cases = seeded insertion sequences x configuration (compression+level, adder, packaging); the first 14 indices "
                   "are fixed boundary shapes (empty pack, 4094..4097 and 8190/8200 tiny items, clusters closing on size, content > "
-                  "cluster, offset-width boundaries, empty contents, dedup adder around 4 MiB, Detect around 6.0 bits, file "
+                  "cluster, offset-width boundaries, empty contents, dedup adder around 4 MiB incl. contents that are the "
+                  "concatenation of two contents inserted one after the other, Detect around 6.0 bits, file "
                   "sub-ranges, packagings), the rest random mixes. Non-trivial = at least one non-empty content and (>= 2 items or "
                   "a non-default hint/source). Distinct = hash(compression, level, packaging, adder, run-length sequence of "
                   "(length class, hint, source, dup)).",
@@ -66,8 +67,10 @@ def run_C02(tier, seed):
                   "cases = seeded schemas (0..6 common properties, 0..4 variants of unequal size incl. empty ones, kinds uint/sint/"
                   "array(prefix 0..31, plain|indexed store, shared)/content address, constant and varying columns, values at every "
                   "byte-width boundary and both signs, arrays around the prefix length and the 255/256 length boundary) x entry "
-                  "counts {0,1,2,255..257,..thousands} x 1..3 index windows, written to a file or a memory cursor and read back "
-                  "through DirectoryPack/Index/AnyBuilder. Non-trivial = >= 1 entry and (>= 2 properties or a variant). Distinct = "
+                  "counts {0,1,2,255..257,..thousands} x 1..3 index windows x integers handed over as immediate values, deferred "
+                  "words or a per-entry mix x zero or arbitrary free data (directory header, index free data and key), written to "
+                  "a file or a memory cursor and read back through DirectoryPack/Index/AnyBuilder; every raw value is also read "
+                  "through RawValue::get() and the typed accessors. Non-trivial = >= 1 entry and (>= 2 properties or a variant). Distinct = "
                   "hash(schema shape, column kinds and value classes, entry-count class, window shapes).",
                   assumptions=["values are derived from (case seed, store, column, entry number) by the harness generator",
                                "the expected final order of an unsorted store is the insertion order"])
@@ -77,7 +80,8 @@ def run_C03(tier, seed):
     return simple("C03", tier, seed, "exploration",
                   "cases = sorted stores with unique key tuples: array keys over small alphabets {00,ff}/{00,ff,a,b}/all bytes sharing "
                   "prefixes shorter, equal and longer than the inline prefix (every prefix 0..31 in thorough, {0,1,2,3,8,31} in quick), "
-                  "plain and indexed stores, uint/sint keys, two-property keys, 1..5000 keys, whole-store and window indexes. Monitors: "
+                  "plain and indexed stores, uint/sint keys (handed over as immediate values, deferred words or a mix; probes alternate between "
+                  "the two forms), two-property keys, 1..5000 keys, whole-store and window indexes. Monitors: "
                   "read-back position = position in the model sorted with the reader's comparison; consecutive keys read back never "
                   "decrease; for every present key (sampled above 120/400) and generated absent neighbours, linear and binary "
                   "Range::find must both answer exactly the expected position / None. Cases 0..9 are the bounded-exhaustive part: "
@@ -121,10 +125,12 @@ def run_C14(tier, seed):
                   "commit fc3306d, expectations = model dump cross-checked at generation time with the independent decoder and the pinned reader) "
                   "is read with the current reader in debug and release and must equal its expected.json item by item, and check() must be true. "
                   "part (a): every generated file (bare content packs from C01's generator, bare directory packs from the C02/C03/C15 "
-                  "generators, whole containers in the three packagings with 0..2 extra content packs) is decoded by the independent "
+                  "generators, whole containers in the three packagings with 0..2 extra content packs, every fourth one made with the "
+                  "low-level creators as loose files or joined by tools::concat, with arbitrary free data in every pack header, index and "
+                  "manifest pack record) is decoded by the independent "
                   "decoder (harness/src/indep.rs, no jubako code): every layout rule (header CRCs, mirror tail, declared size, check "
                   "block, blake3 over the documented range with the manifest mask, table lengths, sized offsets, cluster/entry/value "
-                  "store encodings, zero padding) must hold and the decoded entries/indexes/contents must equal the model. "
+                  "store encodings, zero padding) must hold and the decoded entries/indexes/contents/free data must equal the model. "
                   "Non-trivial and distinct as in C01/C02 plus the case kind and packaging.",
                   assumptions=["the independent decoder is itself unproven code, validated on the repository's byte-level fixtures' "
                                "CRC check value and on thousands of generated files", "zstd/lz4/xz2 crates used as plain decompressors, blake3 crate as hash",
@@ -137,7 +143,9 @@ def run_C16(tier, seed):
                   "and without the deduplicating adder (alternating), duplicates at distance incl. with another hint, optional cluster "
                   "close between duplicates. Oracle on the independent decoder's view of the file: hint 'no' or an uncompressed pack => "
                   "cluster compression byte 0 and the file bytes at the decoded offset are the content verbatim; hint 'yes' in a "
-                  "compressing pack => compression byte = the pack's algorithm and the cluster decodes; dedup adder => equal contents "
+                  "compressing pack => compression byte = the pack's algorithm, the cluster decodes and the blob decoded at the content's "
+                  "offsets is the content; dedup adder => equal contents (and only equal ones: concatenations of two consecutive contents "
+                  "are distinct) "
                   "share one address and the content table has one entry per distinct byte string. The hint clause binds the first "
                   "insertion of a byte string, the dedup clause the repeats. Detect is tallied, not judged. Non-trivial = at least one "
                   "judged item. Distinct = hash(compression, level, adder, run-length (length class, hint, source, dup) sequence).",
@@ -154,7 +162,9 @@ def run_C10(tier, seed):
                   "'jbkC' header with a bad CRC) and opened through the tail fallback; the all-in-one file next to a decoy pack (other "
                   "uuid) at the recorded location. Every scenario's item-wise dump through Container (indexes, entries, values, content "
                   "sizes and blake3, checks) must equal the model's expected dump. Non-trivial = >= 3 scenarios evaluated. Distinct = "
-                  "hash(directory shape, compression, number of extra packs).",
+                  "hash(directory shape, compression, number of extra packs). One case (every 250th in thorough) is a container of 255..300 "
+                  "content packs, as loose files and joined into one file. The first concat order of each kind is joined by the "
+                  "repository's own `jbk concat` command; the dump includes every pack's free data (own header and manifest record).",
                   assumptions=["dumps go through the public reader; uuids are compared only inside one creation"], timeout=200)
 
 
@@ -166,7 +176,10 @@ def run_C11(tier, seed):
                   "in a container file; in half of the scenarios one present pack gets one altered byte. Oracle: Container::new succeeds, "
                   "every index/entry/value equals the model, contents of available packs read back, contents of unavailable packs answer "
                   "MISSING(info) with info = the manifest's description decoded independently, get_pack(unknown id) is None, check() is "
-                  "Ok(true) iff no present pack was altered. Non-trivial = > 1 scenario. Distinct = hash(packaging, pack count, seed).",
+                  "Ok(true) iff no present pack was altered. Every 8th case is made with the low-level creators instead: content packs "
+                  "recorded in the manifest in reverse id order, all but the last joined into the entry-point file and recorded there with the "
+                  "empty location or with the (now stale) name of the file they came from; the external pack removed or not, one embedded "
+                  "pack altered or not. Non-trivial = > 1 scenario. Distinct = hash(packaging, pack count, seed).",
                   assumptions=["the manifest's pack descriptions are taken from the independent decoder"], timeout=200)
 
 
@@ -180,7 +193,9 @@ def run_C12(tier, seed):
                   "pack info may change, length constant, unknown uuid => no change and Ok(None)), returned old location = sequential "
                   "model, the independent decoder finds no broken rule (pack-info CRC, masked blake3) and reads back the model's "
                   "locations and unchanged descriptions, the library opens the manifest, check() is true and shows the new locations; at "
-                  "the end the container content is unchanged. Non-trivial = >= 1 effective rewrite. Distinct = hash(packaging, layout, steps, seed).",
+                  "the end the container content is unchanged. Every fourth history is driven through the repository's own command line "
+                  "tool (`jbk locate <file> <uuid> <location>`, old location parsed from its report, declared location read back with "
+                  "`jbk locate <file> <uuid>`). Non-trivial = >= 1 effective rewrite. Distinct = hash(packaging, layout, steps, seed).",
                   assumptions=["admissible location = at most 213 bytes of valid UTF-8"], timeout=200)
 
 
@@ -217,7 +232,9 @@ def run_C04(tier, seed):
                  "range [0, checkInfoPos) or its check block, excluding the manifest's masked location bytes. Oracle: after the damage, "
                  "Container::check, the ContainerPack::check of the file holding the pack (tools::open_pack) and the pack's own check must "
                  "not answer Ok(true) (false / Err / open failure are fine; a crash counts as 'no success' and is C06's subject). Plus the "
-                 "pristine clause: every specimen and a set of freshly generated containers (3 packagings x all codecs) must check true. "
+                 "pristine clause: every specimen and a set of freshly generated containers (3 packagings x all codecs) must check true, "
+                 "also when four threads check one shared opened container / file at once, and through `jbk check`; `jbk check` of the "
+                 "damaged file must not say ok either. "
                  "Non-trivial = the damage changed >= 1 covered byte. Distinct = (specimen, file, damage).",
                  ["which bytes a checksum covers comes from the independent decoder (harness/src/indep.rs)"])
     for profile in ("debug", "release"):
@@ -294,7 +311,9 @@ def run_C08(tier, seed):
     rep = Report("C08", tier, seed, "exploration",
                  "case = (insertion sequence, worker count, delay seed). Sequences (5 quick / 20 thorough) of 10..30 blocks: 4095 tiny items "
                  "(closes a cluster through the blob limit, compressed or raw), runs of 2..6 contents of 2.2 MiB (close compressed clusters "
-                 "through the size limit and fill the queue), runs of raw contents; 25..80 clusters each. Worker counts {1,2,4,15} quick / "
+                 "through the size limit and fill the queue), runs of raw contents, runs mixing memory / file / file-range sources and "
+                 "hints in the same clusters, contents of one cluster or more followed by a duplicate; every third sequence goes through "
+                 "the deduplicating adder; 25..80 clusters each. Worker counts {1,2,4,15} quick / "
                  "1..15 thorough through the CPU affinity seen by available_parallelism; 4 / 8 delay seeds rotating over the profiles "
                  "uniform heavy-tailed 0-20 ms per (callback, cluster), one slow worker, slow writer, slow workers with a fast main thread. "
                  "Monitors: offline checker over the Progress event log (each cluster opened, handled and written exactly once in that order, "
